@@ -791,12 +791,16 @@ def event_method(I, o, name):
         f = o.flag
         if f is True:
             return True
-        # not set: another thread may or may not set it before the timeout
-        r = I.fresh_bool(o.name + '.wait')
+        # not set.  Sequential semantics: nobody else will set it, so a wait without timeout blocks for ever
+        # (reported as the pseudo exception Deadlock); with a timeout it returns False.
         if not a and 'timeout' not in k:
-            I.note_assumption('Event.wait() without timeout returns (some other thread sets the event)')
-            return True
-        return r
+            if isinstance(f, SBool):
+                if I.path.decide(f.t):
+                    return True
+            raise PyRaise(ExcVal(M.exc_class(I, 'Deadlock'), ('wait on event %s that is never set' % o.name,)))
+        if isinstance(f, SBool):
+            return f
+        return False
     tbl = {'set': set_, 'clear': clear, 'wait': wait, 'is_set': lambda I_, a, k: o.flag, 'isSet': lambda I_, a, k: o.flag}
     if name in tbl:
         return method('Event.' + name, tbl[name])
@@ -1180,6 +1184,14 @@ def _deque(I, a, k):
 
 
 EXTERNALS['collections.deque'] = _fn('collections.deque', _deque)
+
+
+def _datetime_cls(I):
+    now = Ext('datetime.datetime.now', returns={'()': lambda I_, a, k: Ext('datetime-value')})
+    return Ext('datetime.datetime', attrs={'now': now}, auto=False)
+
+
+EXTERNALS['datetime.datetime'] = _datetime_cls
 
 
 THREAD = ExtClass('Thread')
